@@ -15,7 +15,7 @@ INFO = {
     "outside": ["trees outside the corpus", "string values outside the candidate list (line separators U+000A/U+000D are the C02 known finding D7)"],
     "stubs": ["memfs behind esp_kconfiglib.core / kconfgen.core file access"],
 }
-BUDGET = {"quick": 200, "thorough": 1100}
+BUDGET = {"quick": 200, "thorough": 800}
 
 STRS = ["", "p", 'q"t', "b\\s", "#c", "a\x0cb", "x\x85y", "u v", "n"]
 
